@@ -33,6 +33,16 @@ def fresh_field(ex, st, ty, label):
         return VOpaque("field", label)
     if re.match(r"Vec<.*>$", ty):
         return VVec([])
+    m = re.match(r"(?:parking_lot::)?(Mutex|RwLock)<(.*)>$", ty)
+    if m:
+        return VStruct(m.group(1), [fresh_field(ex, st, m.group(2), label + "_inner"), VOpaque("lockname", label)])
+    m = re.match(r"Arc<(.*)>$", ty)
+    if m:
+        return VStruct("Arc", [fresh_field(ex, st, m.group(1), label)])
+    base = re.sub(r"<.*>$", "", ty).split("::")[-1]
+    if base in ex.si.structs and ex.si.structs[base] and base not in ("Index", "CasInner", "IndexState", "WalManager"):
+        # a crate struct this framework has never heard of: every field arbitrary (containers start empty)
+        return mk(ex, st, base)
     raise Unsupported(f"no arbitrary value for a new field `{label}` of type `{ty}`")
 
 
